@@ -30,6 +30,7 @@ var (
 	fList   = flag.Bool("list", false, "list scenarios")
 	fOnly   = flag.String("only", "", "run only the scenario with this id")
 	fVerb   = flag.Bool("verbose", false, "print traces")
+	fSkip   = flag.String("skip", "", "file with scenario ids to skip (one per line; scenarios that crashed the worker or were already done)")
 )
 
 // Property registry: scenario generators per property and tier.
@@ -57,6 +58,7 @@ func TestWorker(t *testing.T) {
 		t.Skip("no -prop")
 	}
 	curT = t
+	curProp = *fProp
 	def := registry[*fProp]
 	if def == nil {
 		t.Fatalf("unknown property %s", *fProp)
@@ -107,7 +109,18 @@ func TestWorker(t *testing.T) {
 	sn, _ := strconv.Atoi(parts[1])
 	if def.e1 != nil {
 		scs := def.e1(*fTier)
+		skip := map[string]bool{}
+		if *fSkip != "" {
+			if b, err := os.ReadFile(*fSkip); err == nil {
+				for _, l := range strings.Split(string(b), "\n") {
+					skip[l] = true
+				}
+			}
+		}
 		for i, sc := range scs {
+			if skip[sc.ID] {
+				continue
+			}
 			if *fList {
 				fmt.Fprintf(realStdout, "%d %s k=%d %s\n", i, sc.ID, sc.K, sc.Note)
 				continue
